@@ -31,6 +31,7 @@ prop(
     legs=[
         dict(name="decoders", crate="l1base", sub="c03", shards={Q: 16, T: 16}, budget={Q: 100, T: 2000}, timeout=2400),
         dict(name="decoders-relverif", crate="l1base", sub="c03", profile="relverif", tiers=(T,), mandatory=False, shards={T: 16}, budget={T: 1000}, timeout=2400),
+        dict(name="asan", kind="asan", crate="l1base", sub="c03", tiers=(T,), budget={T: 20}, timeout=5400, mandatory=False),
     ],
     floors={
         Q: {"inputs.packet": 400_000, "inputs.frame": 400_000, "inputs.params": 300_000, "inputs.prim": 50_000, "origin.corpus": 1000,
